@@ -87,13 +87,20 @@ def run(cmd, timeout=60, cwd=None, env=None, input=None):
             resource.setrlimit(resource.RLIMIT_STACK, (resource.RLIM_INFINITY, resource.RLIM_INFINITY))
         except (ValueError, OSError):
             pass
-    try:
-        p = subprocess.run(cmd, cwd=cwd, env=e, input=input, stdout=subprocess.PIPE,
-                           stderr=subprocess.PIPE, timeout=timeout,
-                           preexec_fn=_limits if cmd and cmd[0] == DRIVER else None)
-        return p.returncode, p.stdout, p.stderr
-    except subprocess.TimeoutExpired as ex:
-        return "timeout", ex.stdout or b"", ex.stderr or b""
+    for attempt in range(3):
+        try:
+            p = subprocess.run(cmd, cwd=cwd, env=e, input=input, stdout=subprocess.PIPE,
+                               stderr=subprocess.PIPE, timeout=timeout,
+                               preexec_fn=_limits if cmd and cmd[0] == DRIVER else None)
+            return p.returncode, p.stdout, p.stderr
+        except subprocess.TimeoutExpired as ex:
+            return "timeout", ex.stdout or b"", ex.stderr or b""
+        except (PermissionError, OSError) as ex:
+            # exec of a file another process still has open for writing (a forked worker inherited the compiler's
+            # descriptor): ETXTBSY / EACCES for a moment
+            if attempt == 2 or ex.errno not in (13, 26):
+                raise
+            time.sleep(0.2)
 
 
 class Scratch:
